@@ -151,6 +151,8 @@ def run(facts, chk, tier, only=None):
         else:
             chk.ok('C02.union', 'C02.union:IUPAC', BE + 'IUPAC', 'accumulation is commutative and idempotent, including the first observation (%d identities)' % n, evals=n)
 
+    # record order cannot matter only if the accumulation tables are the IUPAC union in every cell (shared with C01.pal / C15.use)
+    chk.guard('C02.union', 'C02.union:tables:run', lambda: c01.check_tables(facts, chk, 'C02.union:tables'))
     chk.guard('C02.column', 'C02.column:run', lambda: c03.check_column(facts, chk, 'C02.column'))
     # a window is kept or dropped symmetrically at both record ends only if the end-of-record guards are tight
     # (a record and its reverse complement must yield the same windows): shared with C01.guard
